@@ -4,6 +4,12 @@ package checks
 
 import (
 	"fmt"
+	dbm "github.com/cometbft/cometbft-db"
+	abci "github.com/cometbft/cometbft/abci/types"
+	"github.com/cometbft/cometbft/libs/log"
+	"github.com/cosmos/cosmos-sdk/baseapp"
+	simtestutil "github.com/cosmos/cosmos-sdk/testutil/sims"
+	"github.com/haqq-network/haqq/encoding"
 	"math"
 	"math/big"
 	"math/rand"
@@ -273,7 +279,25 @@ func c17Sequence(r *report.R, id string) {
 	var trace []string
 	nblocks := 12 + rng.Intn(r.Pick(20, 40))
 	heavy := rng.Intn(2) == 0
+	importAt := -1
+	if rng.Intn(3) == 0 {
+		importAt = 4 + rng.Intn(nblocks-5)
+	}
 	for b := 0; b < nblocks; b++ {
+		if b == importAt {
+			// the chain goes on from its own exported genesis (a new application started from the
+			// document): the next base fee must still follow from the last block of the old one
+			exp, err := n.App.ExportAppStateAndValidators(false, nil, nil)
+			if err == nil {
+				na := app.NewHaqq(log.NewNopLogger(), dbm.NewMemDB(), nil, true, map[int64]bool{}, app.DefaultNodeHome, 5,
+					encoding.MakeConfig(app.ModuleBasics), simtestutil.NewAppOptionsWithFlagHome(app.DefaultNodeHome), baseapp.SetChainID(n.Cfg.ChainID))
+				na.InitChain(abci.RequestInitChain{Time: n.Time, ChainId: n.Cfg.ChainID, ConsensusParams: exp.ConsensusParams, AppStateBytes: exp.AppState, InitialHeight: exp.Height, Validators: nil})
+				n.App = na
+				fk = n.App.FeeMarketKeeper
+				r.Count("seq/continued_from_exported_genesis", 1)
+				trace = append(trace, fmt.Sprintf("h=%d: export -> new application from the exported genesis", n.Height))
+			}
+		}
 		n.BeginBlock(vn.BlockOpts{Dt: time.Second})
 		// read the stored parameter itself (GetBaseFee maps a zero base fee to "nil")
 		got := fk.GetParams(n.Ctx()).BaseFee.BigInt()
